@@ -280,3 +280,44 @@ Proof.
   intros Hx Hy. rewrite ren_prog_run by (split; apply mem_nat_false; assumption).
   apply trace_strong_sim. apply drop_preserves.
 Qed.
+
+(* ---- frame: the machine changes the environment only at the ids a statement binds -------------- *)
+Section Frame.
+Variable orc : oracle.
+
+Definition Fs (s : stmt) : Prop := forall m x, ~ In x (stmt_binds s) -> env (exec_stmt orc s m) x = env m x.
+Definition Fb (b : block) : Prop := forall m x, ~ In x (block_binds b) -> env (exec_block orc b m) x = env m x.
+
+Lemma env_frame_block : forall b, Fb b.
+Proof.
+  apply (block_ind2 Fs Fb).
+  - intros d e m x Hx. simpl. apply upd_other. intros E; apply Hx; left; congruence.
+  - intros g ef pu ds ar m x Hx. simpl. apply call_results_other. exact Hx.
+  - intros a o i fs m x _. reflexivity.
+  - intros a k st fs m x _. reflexivity.
+  - intros a k m x _. reflexivity.
+  - intros a st m x _. reflexivity.
+  - intros iv lb ub sp its rs body ys IH m x Hx. rewrite stmt_binds_for in Hx. rewrite exec_stmt_for. unfold exec_for.
+    assert (Hiv : x <> iv) by (intros E; apply Hx; left; congruence).
+    assert (Hba : ~ In x (map it_arg its)) by (intros H; apply Hx; right; apply in_app_iff; left; exact H).
+    assert (Hrs : ~ In x rs) by (intros H; apply Hx; right; apply in_app_iff; right; apply in_app_iff; left; exact H).
+    assert (Hbd : ~ In x (block_binds body)) by (intros H; apply Hx; right; apply in_app_iff; right; apply in_app_iff; right; exact H).
+    simpl. rewrite bind_list_other by exact Hrs.
+    set (step := for_step (exec_block orc body) iv (map it_arg its) ys (env m lb) (env m sp)).
+    set (m0 := set_env m (bind_list (map it_arg its) (map (fun x0 => env m (it_init x0)) its) (env m))).
+    assert (H0 : env m0 x = env m x) by (unfold m0; simpl; apply bind_list_other; exact Hba).
+    assert (Hloop : forall k, env (iter_n k step m0) x = env m x).
+    { induction k as [|k IHk]; [exact H0|]. cbn [iter_n]. unfold step at 1, for_step. simpl.
+      rewrite bind_list_other by exact Hba. rewrite (IH _ x Hbd). simpl. rewrite upd_other by exact Hiv. exact IHk. }
+    apply Hloop.
+  - intros c rs th thy el ely IHt IHe m x Hx. rewrite stmt_binds_if in Hx. rewrite exec_stmt_if. unfold exec_if.
+    assert (Hrs : ~ In x (map fst rs)) by (intros H; apply Hx; apply in_app_iff; left; exact H).
+    assert (Hth : ~ In x (block_binds th)) by (intros H; apply Hx; apply in_app_iff; right; apply in_app_iff; left; exact H).
+    assert (Hel : ~ In x (block_binds el)) by (intros H; apply Hx; apply in_app_iff; right; apply in_app_iff; right; exact H).
+    destruct (env m c =? 0); simpl; rewrite bind_list_other by exact Hrs; [apply IHe|apply IHt]; assumption.
+  - intros m x _. reflexivity.
+  - intros s b Hs Hb m x Hx. unfold block_binds in Hx. cbn [flat_map] in Hx. cbn [exec_block].
+    rewrite Hb by (intros H; apply Hx; apply in_app_iff; right; exact H).
+    apply Hs. intros H; apply Hx; apply in_app_iff; left; exact H.
+Qed.
+End Frame.
